@@ -28,7 +28,10 @@ type storeGenState struct {
 const storeBase = int64(1700000000) * 1e9
 
 var storeTypes = []string{"value", "description", "ab", "a", "tA"}
-var storeKeys = []string{"", "0", "1", "b", "k", "10"}
+var storeKeys = []string{"", "0", "1", "b", "k", "10", "-1", " "}
+
+// keys that sort after "" and before "0" (a sort of the batch by key puts them between the two spellings of key zero)
+var storeKeysBelowZero = []string{"-1", " ", "/", "#x", "+5", "!"}
 var storeTexts = []string{"", "x", "héllo", "日本語", "a b", "line1\nline2"}
 var storeNodeTypes = []string{"group", "variable", "device", "user"}
 
@@ -200,6 +203,14 @@ func (g *storeGenState) batch(target string, max int) []sPoint {
 			}
 			q.Time = g.freshTime(target, q.Type, q.Key)
 			ps = append(ps, q)
+			if (p.Key == "" || p.Key == "0") && g.r.Intn(2) == 0 {
+				// ... and a third point of that type whose key lies between "" and "0" in byte order
+				z := g.dataPoint(target)
+				z.Type, z.Key = p.Type, storeKeysBelowZero[g.r.Intn(len(storeKeysBelowZero))]
+				z.Time = g.freshTime(target, z.Type, z.Key)
+				ps = append(ps, z)
+				g.kinds["key-between-blank-and-zero"]++
+			}
 		}
 	}
 	if g.r.Intn(8) == 0 {
